@@ -235,21 +235,30 @@ Proof.
   - (* 5 *) destruct o as [rs| |] eqn:Eo; try reflexivity. destruct rs as [|[ev d] [|]]; try reflexivity.
     destruct op as [sd ms|sd m|c p|to amt|sd m|sd m] eqn:Eop; try reflexivity.
     + destruct m; try reflexivity.
-      destruct (texec_call_ok e sd (MExec c p funds) p s _ eq_refl Eo) as (c0 & ev0 & d0 & s1 & s2 & _ & Ht & Er & E1 & _).
-      specialize (Ht c eq_refl). subst c0. injection E1 as -> _.
-      destruct (run_prog_ok_inv _ _ _ _ _ _ _ _ _ _ _ _ _ _ Er) as (node & acts & attrs & events & data & sbs & co & tr_s & ev_s & -> & _ & _ & _ & ->).
-      apply is_prefix_ev_app.
+      * destruct (texec_call_ok e sd (MExec c p funds) p s _ eq_refl Eo) as (c0 & ev0 & d0 & s1 & s2 & _ & Ht & Er & E1 & _).
+        specialize (Ht c eq_refl). subst c0. injection E1 as -> _.
+        destruct (run_prog_ok_inv _ _ _ _ _ _ _ _ _ _ _ _ _ _ Er) as (node & acts & attrs & events & data & sbs & co & tr_s & ev_s & -> & _ & _ & _ & ->).
+        apply is_prefix_ev_app.
+      * destruct (texec_call_ok e sd (MMigrate c new_code p) p s _ eq_refl Eo) as (c0 & ev0 & d0 & s1 & s2 & _ & Ht & Er & E1 & _).
+        specialize (Ht c eq_refl). subst c0. injection E1 as -> _.
+        destruct (run_prog_ok_inv _ _ _ _ _ _ _ _ _ _ _ _ _ _ Er) as (node & acts & attrs & events & data & sbs & co & tr_s & ev_s & -> & _ & _ & _ & ->).
+        apply is_prefix_ev_app.
     + destruct (tsudo_ok e c p s _ Eo) as (ev0 & d0 & s2 & Er & E1 & _). injection E1 as -> _.
       destruct (run_prog_ok_inv _ _ _ _ _ _ _ _ _ _ _ _ _ _ Er) as (node & acts & attrs & events & data & sbs & co & tr_s & ev_s & -> & _ & _ & _ & ->).
       apply is_prefix_ev_app.
   - (* 6 *) destruct o as [rs| |] eqn:Eo; try reflexivity. destruct rs as [|[ev d] [|]]; try reflexivity.
     destruct op as [sd ms|sd m|c p|to amt|sd m|sd m] eqn:Eop; try reflexivity.
     + destruct m; try reflexivity.
-      destruct (texec_call_ok e sd (MExec c p funds) p s _ eq_refl Eo) as (c0 & ev0 & d0 & s1 & s2 & _ & Ht & Er & E1 & _).
-      specialize (Ht c eq_refl). subst c0. injection E1 as -> ->.
-      destruct (run_prog_ok_inv _ _ _ _ _ _ _ _ _ _ _ _ _ _ Er) as (node & acts & attrs & events & data & sbs & co & tr_s & ev_s & -> & _ & Es & _ & ->).
-      destruct sbs; [|reflexivity]. cbn in Es. injection Es as _ <- <- _.
-      cbn [prog_leaf negb orb leaf_events own_data msg_data]. rewrite app_nil_r, events_eqb_refl, obytes_eqb_refl. reflexivity.
+      * destruct (texec_call_ok e sd (MExec c p funds) p s _ eq_refl Eo) as (c0 & ev0 & d0 & s1 & s2 & _ & Ht & Er & E1 & _).
+        specialize (Ht c eq_refl). subst c0. injection E1 as -> ->.
+        destruct (run_prog_ok_inv _ _ _ _ _ _ _ _ _ _ _ _ _ _ Er) as (node & acts & attrs & events & data & sbs & co & tr_s & ev_s & -> & _ & Es & _ & ->).
+        destruct sbs; [|reflexivity]. cbn in Es. injection Es as _ <- <- _.
+        cbn [prog_leaf negb orb leaf_events own_data msg_data]. rewrite app_nil_r, events_eqb_refl, obytes_eqb_refl. reflexivity.
+      * destruct (texec_call_ok e sd (MMigrate c new_code p) p s _ eq_refl Eo) as (c0 & ev0 & d0 & s1 & s2 & _ & Ht & Er & E1 & _).
+        specialize (Ht c eq_refl). subst c0. injection E1 as -> ->.
+        destruct (run_prog_ok_inv _ _ _ _ _ _ _ _ _ _ _ _ _ _ Er) as (node & acts & attrs & events & data & sbs & co & tr_s & ev_s & -> & _ & Es & _ & ->).
+        destruct sbs; [|reflexivity]. cbn in Es. injection Es as _ <- <- _.
+        cbn [prog_leaf negb orb leaf_events own_data msg_data msg_entry msg_cid]. rewrite app_nil_r, events_eqb_refl, obytes_eqb_refl. reflexivity.
     + destruct (tsudo_ok e c p s _ Eo) as (ev0 & d0 & s2 & Er & E1 & _). injection E1 as -> ->.
       destruct (run_prog_ok_inv _ _ _ _ _ _ _ _ _ _ _ _ _ _ Er) as (node & acts & attrs & events & data & sbs & co & tr_s & ev_s & -> & _ & Es & _ & ->).
       destruct sbs; [|reflexivity]. cbn in Es. injection Es as _ <- <- _.
@@ -284,15 +293,24 @@ Proof.
       cbv beta iota. rewrite (q_fi pi (I pi B)), C. cbn. apply N.eqb_refl. }
     destruct op as [sd ms|sd m|c p|to amt|sd m|sd m] eqn:Eop; try reflexivity.
     + destruct m; try reflexivity.
-      destruct (texec_call_ok e sd (MExec c p funds) p s _ eq_refl Eo) as (c0 & ev0 & d0 & s1 & s2 & _ & Ht & Er & E1 & _).
-      specialize (Ht c eq_refl). subst c0. injection E1 as -> ->.
-      destruct (run_prog_ok_inv _ _ _ _ _ _ _ _ _ _ _ _ _ _ Er) as (node & acts & attrs & events & data & sbs & co & tr_s & ev_s & -> & _ & Es & Et & ->).
-      destruct (subs_data e c node sbs data _ _ _ _ _ Es) as [->|W].
-      * cbn [own_data msg_data]. rewrite obytes_eqb_refl. apply orb_true_r.
-      * rewrite (Hwit node (flat_subs node sbs)); [reflexivity| |].
-        -- fold tr in Et. rewrite Et. eapply reply_witness_mono; [apply incl_refl| |exact W].
-           intros x Hx. right. apply in_or_app. right. exact Hx.
-        -- cbn [flat_op top_msgs flat_map flat_msg flat_prog]. intros x Hx. apply in_or_app. left. right. exact Hx.
+      * destruct (texec_call_ok e sd (MExec c p funds) p s _ eq_refl Eo) as (c0 & ev0 & d0 & s1 & s2 & _ & Ht & Er & E1 & _).
+        specialize (Ht c eq_refl). subst c0. injection E1 as -> ->.
+        destruct (run_prog_ok_inv _ _ _ _ _ _ _ _ _ _ _ _ _ _ Er) as (node & acts & attrs & events & data & sbs & co & tr_s & ev_s & -> & _ & Es & Et & ->).
+        destruct (subs_data e c node sbs data _ _ _ _ _ Es) as [->|W].
+        -- cbn [own_data msg_data]. rewrite obytes_eqb_refl. apply orb_true_r.
+        -- rewrite (Hwit node (flat_subs node sbs)); [reflexivity| |].
+           ++ fold tr in Et. rewrite Et. eapply reply_witness_mono; [apply incl_refl| |exact W].
+              intros x Hx. right. apply in_or_app. right. exact Hx.
+           ++ cbn [flat_op top_msgs flat_map flat_msg flat_prog]. intros x Hx. apply in_or_app. left. right. exact Hx.
+      * destruct (texec_call_ok e sd (MMigrate c new_code p) p s _ eq_refl Eo) as (c0 & ev0 & d0 & s1 & s2 & _ & Ht & Er & E1 & _).
+        specialize (Ht c eq_refl). subst c0. injection E1 as -> ->.
+        destruct (run_prog_ok_inv _ _ _ _ _ _ _ _ _ _ _ _ _ _ Er) as (node & acts & attrs & events & data & sbs & co & tr_s & ev_s & -> & _ & Es & Et & ->).
+        destruct (subs_data e c node sbs data _ _ _ _ _ Es) as [->|W].
+        -- cbn [own_data msg_data]. rewrite obytes_eqb_refl. apply orb_true_r.
+        -- rewrite (Hwit node (flat_subs node sbs)); [reflexivity| |].
+           ++ fold tr in Et. rewrite Et. eapply reply_witness_mono; [apply incl_refl| |exact W].
+              intros x Hx. right. apply in_or_app. right. exact Hx.
+           ++ cbn [flat_op top_msgs flat_map flat_msg flat_prog]. intros x Hx. apply in_or_app. left. right. exact Hx.
     + destruct (tsudo_ok e c p s _ Eo) as (ev0 & d0 & s2 & Er & E1 & _). injection E1 as -> ->.
       destruct (run_prog_ok_inv _ _ _ _ _ _ _ _ _ _ _ _ _ _ Er) as (node & acts & attrs & events & data & sbs & co & tr_s & ev_s & -> & _ & Es & Et & ->).
       destruct (subs_data e c node sbs data _ _ _ _ _ Es) as [->|W].
@@ -305,24 +323,42 @@ Proof.
     pose proof (Hni st s Hpre) as Hu. pose proof (Hn st s Hpre) as Hnn. fold op in Hu, Hnn.
     destruct op as [sd ms|sd m|c p|to amt|sd m|sd m] eqn:Eop; try reflexivity.
     + destruct m; try reflexivity.
-      destruct (texec_call_ok e sd (MExec c p funds) p s _ eq_refl Eo) as (c0 & ev0 & d0 & s1 & s2 & _ & Ht & Er & E1 & _).
-      specialize (Ht c eq_refl). subst c0. injection E1 as -> ->.
-      destruct (run_prog_ok_inv _ _ _ _ _ _ _ _ _ _ _ _ _ _ Er) as (node & acts & attrs & events & data & sbs & co & tr_s & ev_s & -> & _ & Es & Et & ->).
-      fold tr in Et. rewrite Et.
-      change (hdr e node (msg_entry (MExec c (Prog node acts (OResp attrs events data sbs)) funds)) c
-                (msg_sender (MExec c (Prog node acts (OResp attrs events data sbs)) funds) sd)
-                (msg_funds (MExec c (Prog node acts (OResp attrs events data sbs)) funds)) co None :: body_tr e s1 node c acts ++ tr_s)
-        with ([hdr e node EExec c (Some sd) funds co None] ++ body_tr e s1 node c acts ++ tr_s).
-      rewrite !dr_app. rewrite (dr_no_calls _ node (body_tr e s1 node c acts)) by apply actions_no_calls.
-      cbn [direct_replies flat_map hdr app].
-      destruct (forallb prog_leaf (direct_replies (flat_op (TExec sd (MExec c (Prog node acts (OResp attrs events data sbs)) funds))) node tr_s)) eqn:El;
-        [|reflexivity]. cbn [negb orb].
-      assert (HI : incl (flat_subs node sbs) (flat_op (TExec sd (MExec c (Prog node acts (OResp attrs events data sbs)) funds)))).
-      { cbn [flat_op top_msgs flat_map flat_msg flat_prog]. intros x Hx. apply in_or_app. left. right. exact Hx. }
-      assert (HR : ~ In node (nodes_subs sbs)).
-      { cbn [nodes_op top_msgs flat_map nodes_msg nodes_prog] in Hnn. rewrite app_nil_r in Hnn. inversion Hnn; assumption. }
-      rewrite (subs_fold e c _ node sbs data _ _ _ _ _ Hu HI HR Es El).
-      cbn [own_data msg_data]. apply obytes_eqb_refl.
+      * destruct (texec_call_ok e sd (MExec c p funds) p s _ eq_refl Eo) as (c0 & ev0 & d0 & s1 & s2 & _ & Ht & Er & E1 & _).
+        specialize (Ht c eq_refl). subst c0. injection E1 as -> ->.
+        destruct (run_prog_ok_inv _ _ _ _ _ _ _ _ _ _ _ _ _ _ Er) as (node & acts & attrs & events & data & sbs & co & tr_s & ev_s & -> & _ & Es & Et & ->).
+        fold tr in Et. rewrite Et.
+        change (hdr e node (msg_entry (MExec c (Prog node acts (OResp attrs events data sbs)) funds)) c
+                  (msg_sender (MExec c (Prog node acts (OResp attrs events data sbs)) funds) sd)
+                  (msg_funds (MExec c (Prog node acts (OResp attrs events data sbs)) funds)) co None :: body_tr e s1 node c acts ++ tr_s)
+          with ([hdr e node EExec c (Some sd) funds co None] ++ body_tr e s1 node c acts ++ tr_s).
+        rewrite !dr_app. rewrite (dr_no_calls _ node (body_tr e s1 node c acts)) by apply actions_no_calls.
+        cbn [direct_replies flat_map hdr app].
+        destruct (forallb prog_leaf (direct_replies (flat_op (TExec sd (MExec c (Prog node acts (OResp attrs events data sbs)) funds))) node tr_s)) eqn:El;
+          [|reflexivity]. cbn [negb orb].
+        assert (HI : incl (flat_subs node sbs) (flat_op (TExec sd (MExec c (Prog node acts (OResp attrs events data sbs)) funds)))).
+        { cbn [flat_op top_msgs flat_map flat_msg flat_prog]. intros x Hx. apply in_or_app. left. right. exact Hx. }
+        assert (HR : ~ In node (nodes_subs sbs)).
+        { cbn [nodes_op top_msgs flat_map nodes_msg nodes_prog] in Hnn. rewrite app_nil_r in Hnn. inversion Hnn; assumption. }
+        rewrite (subs_fold e c _ node sbs data _ _ _ _ _ Hu HI HR Es El).
+        cbn [own_data msg_data]. apply obytes_eqb_refl.
+      * destruct (texec_call_ok e sd (MMigrate c new_code p) p s _ eq_refl Eo) as (c0 & ev0 & d0 & s1 & s2 & _ & Ht & Er & E1 & _).
+        specialize (Ht c eq_refl). subst c0. injection E1 as -> ->.
+        destruct (run_prog_ok_inv _ _ _ _ _ _ _ _ _ _ _ _ _ _ Er) as (node & acts & attrs & events & data & sbs & co & tr_s & ev_s & -> & _ & Es & Et & ->).
+        fold tr in Et. rewrite Et.
+        change (hdr e node (msg_entry (MMigrate c new_code (Prog node acts (OResp attrs events data sbs)))) c
+                  (msg_sender (MMigrate c new_code (Prog node acts (OResp attrs events data sbs))) sd)
+                  (msg_funds (MMigrate c new_code (Prog node acts (OResp attrs events data sbs)))) co None :: body_tr e s1 node c acts ++ tr_s)
+          with ([hdr e node EMigrate c None [] co None] ++ body_tr e s1 node c acts ++ tr_s).
+        rewrite !dr_app. rewrite (dr_no_calls _ node (body_tr e s1 node c acts)) by apply actions_no_calls.
+        cbn [direct_replies flat_map hdr app].
+        destruct (forallb prog_leaf (direct_replies (flat_op (TExec sd (MMigrate c new_code (Prog node acts (OResp attrs events data sbs))))) node tr_s)) eqn:El;
+          [|reflexivity]. cbn [negb orb].
+        assert (HI : incl (flat_subs node sbs) (flat_op (TExec sd (MMigrate c new_code (Prog node acts (OResp attrs events data sbs)))))).
+        { cbn [flat_op top_msgs flat_map flat_msg flat_prog]. intros x Hx. apply in_or_app. left. right. exact Hx. }
+        assert (HR : ~ In node (nodes_subs sbs)).
+        { cbn [nodes_op top_msgs flat_map nodes_msg nodes_prog] in Hnn. rewrite app_nil_r in Hnn. inversion Hnn; assumption. }
+        rewrite (subs_fold e c _ node sbs data _ _ _ _ _ Hu HI HR Es El).
+        cbn [own_data msg_data]. apply obytes_eqb_refl.
     + destruct (tsudo_ok e c p s _ Eo) as (ev0 & d0 & s2 & Er & E1 & _). injection E1 as -> ->.
       destruct (run_prog_ok_inv _ _ _ _ _ _ _ _ _ _ _ _ _ _ Er) as (node & acts & attrs & events & data & sbs & co & tr_s & ev_s & -> & _ & Es & Et & ->).
       fold tr in Et. rewrite Et.
